@@ -536,6 +536,9 @@ class Tie(object):
 def run_all(ctx, schema, population, hist, tail, base, with_tie=True):
     logs = {}; sel = {}; ties = []
     for st in STRATEGIES:
+        if st == 'lazyref' and DEFECT['lazyref'] and any(r['kind'] == 'm2o' for r in schema['rels']):
+            # every one-to-many collection loads empty under this strategy (reported by the witness on every run): nothing below it can be compared
+            ctx.count('lazyref-not-compared:lazy-reference-defect-present'); continue
         tie = None
         if with_tie:
             t = Tie(ctx, schema, st); ties.append(t)
@@ -546,7 +549,7 @@ def run_all(ctx, schema, population, hist, tail, base, with_tie=True):
 def first_diff(logs):
     ref = logs['default']
     for st in STRATEGIES[1:]:
-        if logs[st] != ref:
+        if st in logs and logs[st] != ref:
             i = next((i for i, (a, b) in enumerate(zip(ref, logs[st])) if a != b), min(len(ref), len(logs[st])))
             return st, i
     return None
@@ -596,8 +599,48 @@ def report(ctx, schema, population, hist, base, d):
                   observed={st0: lg[st0][i] if 0 <= i < len(lg[st0]) else None}, expected={'default': lg['default'][i] if 0 <= i < len(lg['default']) else None}, key=key)
 
 
+DEFECT = {'lazyref': False, 'count': False}
+
+def witnesses(ctx):
+    """the two defects confirmed while building the check, replayed on every run on fixed minimal programs"""
+    db = Database()
+    class G(db.Entity):
+        ps = Set('P')
+    class P(db.Entity):
+        g = Optional(G, lazy=True)
+    db.bind('sqlite', ':memory:'); db.generate_mapping(create_tables=True)
+    with db_session:
+        g = G(); P(g=g); P(g=g)
+    with db_session: items = sorted(p.id for p in G[1].ps)
+    with db_session: empty = G[1].ps.is_empty()
+    db.disconnect()
+    ctx.case(['witness', 'lazy-reference'], kind='witness:lazy-reference')
+    DEFECT['lazyref'] = (items != [1, 2] or empty)
+    if DEFECT['lazyref']:
+        ctx.violation(LAZYREF_WHAT, {'program': "class G: ps = Set('P'); class P: g = Optional(G, lazy=True); g = G(); P(g=g); P(g=g); commit; new session: G[1].ps ; G[1].ps.is_empty()"},
+                      observed={'items': items, 'is_empty': empty}, expected={'items': [1, 2], 'is_empty': False}, key=LAZYREF_KEY)
+    db = Database()
+    class A(db.Entity):
+        bs = Set('B')
+    class B(db.Entity):
+        as_ = Set(A)
+    db.bind('sqlite', ':memory:'); db.generate_mapping(create_tables=True)
+    with db_session:
+        a = A(); b = B(as_=[a])
+    with db_session:
+        a = A[1]; b = B[1]; b.as_.remove(a); flush(); cnt = b.as_.count(); n = len(b.as_)
+        rollback()
+    db.disconnect()
+    ctx.case(['witness', 'm2m-count'], kind='witness:m2m-count-after-flush')
+    DEFECT['count'] = cnt != n
+    if DEFECT['count']:
+        ctx.violation(COUNT_WHAT, {'program': "class A: bs = Set('B'); class B: as_ = Set(A); a = A(); b = B(as_=[a]); commit; new session: B[1].as_.remove(A[1]); flush(); B[1].as_.count()"},
+                      observed={'count': cnt}, expected={'count': n}, key=COUNT_KEY)
+
+
 def run(ctx):
     rng = ctx.rng
+    witnesses(ctx)
     work = ponyutil.workdir('c23')
     base = os.path.join(work, 'base.sqlite')
     try:
@@ -616,7 +659,7 @@ def run(ctx):
             for op, r in zip(hist, logs['default']):
                 ctx.count('op:' + op[0]); ctx.count('outcome:' + r[0])
             for r in schema['rels']: ctx.count('rel:' + r['kind'])
-            for st in STRATEGIES: ctx.count('selects:' + st, sel[st])
+            for st in sel: ctx.count('selects:' + st, sel[st])
             for t in ties: t.check()
             if len(PENDING) > 1500: Tie.flush_pending(ctx)
             d = first_diff(logs)
